@@ -478,7 +478,41 @@ def judge_dist(inp):
     return None
 
 
-JUDGES = {"dp": judge_dp, "q": judge_q, "roundtrip": judge_roundtrip, "seed": judge_seed, "dist": judge_dist}
+def judge_q_cross(inp):
+    """quantile helpers of different families called one after the other with literally the same numbers (all by
+    position, parameters that are left out take R's defaults): each answer is still its own family's quantile"""
+    mp = mpctx()
+    for u, nums in inp["rounds"]:
+        for fn in sorted(QPOSITIONAL):
+            names, fam = QPOSITIONAL[fn], fn[1:]
+            if len(nums) > len(names) or not all(k in RDEF.get(fam, {}) for k in names[len(nums):]):
+                continue
+            P = full(fam, dict(zip(names, nums)))
+            if fam == "unif" and not P["min"] < P["max"]:
+                continue
+            st, got = call(fn, [u] + list(nums), {})
+            desc = "%s(%s) [after the other quantile helpers were called with the same numbers]" % (fn, ", ".join(repr(a) for a in [u] + list(nums)))
+            if st == "missing":
+                continue
+            if st == "raise":
+                return (fn + "-raises", "%s raised %s" % (desc, got))
+            if fam in DISCRETE:
+                k = 0
+                while o_plain(fam, "p", k, P, mp) < u and k < 10000:
+                    k += 1
+                if min(abs(float(o_plain(fam, "p", j, P, mp)) - u) for j in (max(k - 1, 0), k)) < 1e-6:
+                    continue                    # near-tie
+                if float(got) != k:
+                    return (fn + "-not-inverse", "%s = %r but the smallest k with cdf(k) >= p is %d" % (desc, got, k))
+                continue
+            back = o_plain(fam, "p", float(got), P, mp)
+            if abs(float(back - mp.mpf(u))) > QTOL:
+                return (fn + "-not-inverse", "%s = %r but the cdf of R's %s family there is %s, not %r"
+                        % (desc, got, fam, mp.nstr(back, 15), u))
+    return None
+
+
+JUDGES = {"dp": judge_dp, "q": judge_q, "roundtrip": judge_roundtrip, "seed": judge_seed, "dist": judge_dist, "q_cross": judge_q_cross}
 
 
 def judge(inp):
@@ -654,6 +688,8 @@ def k_r(ck, nrtable, rng):
 
 # ====================================================================== inputs
 CORPUS = [
+    dict(kind="q_cross", fam="cross", fn="qexp", params={}, flags={},
+         rounds=[[0.3, []], [0.75, [2.0]], [0.6, [2.0, 3.0]], [0.6, [4, 0.5]], [0.3, []], [0.75, [2.0]]]),
     dict(kind="dp", fn="pchisq", fam="chisq", x=2.0, params=dict(df=3.0), flags=dict(log=False)),
     dict(kind="dp", fn="dchisq", fam="chisq", x=2.0, params=dict(df=3.0), flags=dict(log=False)),
     dict(kind="dp", fn="dbeta", fam="beta", x=0.3, params=dict(shape1=2.0, shape2=3.0), flags=dict(log=True)),
@@ -831,6 +867,8 @@ def gen_inputs(rng, ndp, nq, nseed, ndist):
 
 def is_nontrivial(inp):
     P = {k: v for k, v in inp["params"].items()}
+    if inp["kind"] == "q_cross":
+        return True
     if inp["kind"] == "seed":
         return inp["n"] > 1 or inp.get("g2") is not None
     return nontrivial_params(inp["fam"], P) or len(P) < len(full(inp["fam"], P))
